@@ -305,7 +305,9 @@ func readTV(rd data.Reader, kind string, ptr bool) (tv, error) {
 			x, err = rd.Bytes()
 		}
 		if err == nil {
-			v.b = append([]byte(nil), x...)
+			// NOT copied: the caller of Bytes() keeps the returned slice while it goes on reading;
+			// the values are compared after the whole sequence has been decoded
+			v.b = x
 		}
 	case "str":
 		var x string
@@ -393,6 +395,17 @@ func decodeWith(reader string, kinds []string, pieces [][]byte, r *Rng) (string,
 
 func eqTV(a, b tv) bool { return a.canon() == b.canon() }
 
+func shortToks(t []string) []string {
+	o := make([]string, len(t))
+	for i := range t {
+		o[i] = t[i]
+		if len(o[i]) > 120 {
+			o[i] = o[i][:120] + fmt.Sprintf("...(%d chars)", len(t[i]))
+		}
+	}
+	return o
+}
+
 func runC10(c *Ctx) {
 	// A. round trips: both writers, both readers, random chunkings, trailing data.
 	c.Cases("rt", c.N(1500, 40000), func(r *Rng, i int) {
@@ -461,6 +474,40 @@ func runC10(c *Ctx) {
 			}
 		}
 		c.Eval(nontriv, strings.Join(toks, " "))
+		// B0. truncations inside the first bytes (tag, length/count prefix) of EVERY value, whatever
+		// the size of the encoding
+		if len(e1) > c.N(80, 400) {
+			off := 0
+			for j, v := range vs {
+				var one data.Chunk
+				writeTV(&one, v)
+				for d := 0; d <= 9 && d < one.Size(); d++ {
+					cut := off + d
+					for _, reader := range []string{"chunk", "stream"} {
+						pieces := r.Split(e1[:cut])
+						if len(pieces) > 50 {
+							pieces = [][]byte{e1[:cut]}
+						}
+						out, got, err := decodeWith(reader, kinds, pieces, r)
+						if len(e1[:cut]) <= 3000 {
+							c.Op(fmt.Sprintf("dec %s %s %s", reader, kindsOf(vs), hxChunks(pieces)), out)
+						}
+						c.Count("trunc-hdr:" + reader)
+						if err == nil {
+							c.Fail("truncation", "fabricated:"+reader+":"+vs[j].kind, fmt.Sprintf("reader %s returned no error on a %d/%d-byte prefix (cut %d bytes into value %d)", reader, cut, len(e1), d, j), map[string]interface{}{"values": shortToks(toks), "cut": cut})
+							continue
+						}
+						for q := range got {
+							if !eqTV(vs[q], got[q]) {
+								c.Fail("truncation", "fabricated-before-error:"+reader+":"+vs[q].kind, fmt.Sprintf("prefix %d: value %d differs from what was written", cut, q), shortToks(toks))
+								break
+							}
+						}
+					}
+				}
+				off += one.Size()
+			}
+		}
 		// B. truncations: every strict prefix must produce an error and no fabricated value.
 		if len(e1) <= c.N(80, 400) || r.Chance(c.N(2, 10)) {
 			step := 1
@@ -496,6 +543,56 @@ func runC10(c *Ctx) {
 				}
 			}
 		}
+	})
+	// A2. directed large values (oracle only; too large for the model run): every byte of the 4-byte
+	// length / count prefix is exercised
+	c.Cases("biglen", c.N(3, 5), func(r *Rng, i int) {
+		var v tv
+		switch i {
+		case 0:
+			v = tv{kind: "by", b: r.Bytes(1<<24 + 3)}
+		case 1:
+			v = tv{kind: "sl", l: make([][]byte, 65537)}
+			v.l[65536] = []byte("x")
+		case 2:
+			v = tv{kind: "str", b: r.Bytes(1<<24 | 1<<16 | 0x0201)}
+		case 3:
+			v = tv{kind: "by", b: r.Bytes(1<<25 + 1<<24 + 7)}
+		default:
+			v = tv{kind: "sl", l: make([][]byte, 1<<17+5)}
+			v.l[3] = r.Bytes(300)
+		}
+		vs := []tv{{kind: "u8", u: 7}, v, {kind: "u16", u: 0xBEEF}}
+		var ch data.Chunk
+		var mw multiWrites
+		sw := data.NewWriter(&mw)
+		for _, x := range vs {
+			if writeTV(&ch, x) != nil || writeTV(sw, x) != nil {
+				c.Fail("write", "writer-error:big", "writer failed on a large value", v.kind)
+				return
+			}
+		}
+		e1 := ch.Payload()
+		if !bytes.Equal(e1, bytes.Join(mw.w, nil)) {
+			c.Fail("writers-agree", "writers-differ", "chunk and stream writer encodings differ on a large value", v.kind)
+		}
+		kinds := strings.Split(kindsOf(vs), ",")
+		for _, reader := range []string{"chunk", "stream"} {
+			pieces := [][]byte{e1[:2], e1[2:5], e1[5 : len(e1)/2], e1[len(e1)/2:]}
+			_, got, err := decodeWith(reader, kinds, pieces, r)
+			if err != nil {
+				c.Fail("roundtrip", "roundtrip-error:"+reader, fmt.Sprintf("large %s value (%d bytes encoded): %v", v.kind, len(e1), err), v.kind)
+				continue
+			}
+			for j := range vs {
+				if !eqTV(vs[j], got[j]) {
+					c.Fail("roundtrip", "roundtrip-value:"+reader+":"+vs[j].kind, fmt.Sprintf("large value %d differs after the round trip", j), v.kind)
+					break
+				}
+			}
+		}
+		c.Count("biglen:" + v.kind)
+		c.Eval(true, fmt.Sprint("biglen", i))
 	})
 	// C. malformed streams: random bytes / mutated encodings decoded as random type lists
 	// (pure model-vs-implementation comparison, no oracle).
